@@ -26,12 +26,18 @@ THEOREMS = ["XV.Props.C16." + t for t in (
     "engine_tables_ok", "prim_roundtrip", "string_roundtrip", "buffer_boundary_invariant", "buffer_size_matters_for_unaligned",
     "level_mismatch_rejected", "level_match_accepted",
     "all_classes_symmetric", "abstract_classes_covered", "all_helpers_symmetric", "all_templates_symmetric",
-    "nothing_uncovered", "symmetric_ops_roundtrip", "graph_roundtrip", "pool_index_injective")]
+    "nothing_uncovered", "symmetric_ops_roundtrip", "graph_roundtrip", "pool_index_injective",
+    "dv_reference_identity", "dv_name_test_unsound")]
 RULE = ("engine: E = random sequences of 1-12 typed values (all 14 primitive kinds, raw blocks, the 4 string encodings incl. null) "
         "x buffer sizes {8..8192} plus directed block-boundary lengths; G = random heaps of <=9 objects of two classes with nulls, "
-        "sharing and cycles; distinct by case text, non-trivial = at least 2 values or 2 objects.  pools: P = one generated DTD or "
+        "sharing, cycles and distinct objects of identical content; distinct by case text, non-trivial = at least 2 values or 2 objects.  pools: P = one generated DTD or "
         "XML Schema (content models of every kind, attribute types/defaults, facets, identity constraints, wildcards, substitution "
-        "groups, notations, entities, annotations) with 5-7 generated instances (valid + mutated); distinct by grammar text")
+        "groups, notations, entities, annotations; in 2/3 of the schemas named simple types — used as element, attribute, list item, "
+        "union member, restriction base and simpleContent base type — are NAMED like XSD built-ins ({urn:t}token, decimal, date, ID ...) "
+        "with facets that the built-in lacks, the rest are controls; anonymous simple types; 1/3 of the XSD pools hold a second grammar "
+        "urn:u with the same local type names and its own anonymous types, half of them imported by the first) with 7-9 generated "
+        "instances (valid + mutated + one probe element/attribute per named type with every listed value); verdicts are not compared "
+        "for schemas the loader itself rejects as non-deterministic (UPA); distinct by grammar text")
 ASSUMPTIONS = [
     "store and load engines use the same buffer size and buffers congruent mod 8 (both come from the same MemoryManager; default 8192)",
     "strings written with a buffer length have strLen < bufferLen (else readString writes its terminator outside the allocation)",
@@ -134,12 +140,24 @@ def gen_graph_cases(ctx):
         def pb():
             return r.choice(Bc) if Bc and not r.chance(1, 4) else 0
         toks = []
+        lastA = lastB = None      # distinct objects with IDENTICAL content must stay distinct (identity, not value, keys the pool)
         for i in ids:
             if cls[i] == 1:
                 s = "N" if r.chance(1, 5) else hx([0x41 + r.below(26) for _ in range(r.below(6))])
-                toks.append("%x:1:%x:%s:%x:%x" % (i, r.next() & 0xFFFFFFFF, s, pa(), pb()))
+                c = (r.next() & 0xFFFFFFFF, s)
+                if lastA is not None and r.chance(1, 3):
+                    c = lastA
+                lastA = c
+                if r.chance(1, 4) and lastA is c and len(toks) and toks[-1].split(":")[1] == "1":
+                    toks.append("%x:1:%x:%s:%s:%s" % ((i, c[0], c[1]) + tuple(toks[-1].split(":")[4:6])))   # same pointers too
+                else:
+                    toks.append("%x:1:%x:%s:%x:%x" % (i, c[0], c[1], pa(), pb()))
             else:
-                toks.append("%x:2:%x:%x:%x:%x:%x" % (i, r.below(256), pb(), pa(), r.next() & 0xFFFFFFFFFFFFFFFF, pa()))
+                c = (r.below(256), r.next() & 0xFFFFFFFFFFFFFFFF)
+                if lastB is not None and r.chance(1, 3):
+                    c = lastB
+                lastB = c
+                toks.append("%x:2:%x:%x:%x:%x:%x" % (i, c[0], pb(), pa(), c[1], pa()))
         root = r.choice(ids) if not r.chance(1, 30) else 0
         lines.append("G %d %x %s" % (r.choice([16, 24, 32, 40, 64, 8192]), root, " ".join(toks)))
     return lines
@@ -359,41 +377,99 @@ XS = "http://www.w3.org/2001/XMLSchema"
 class XsdGen:
     def __init__(self, r):
         self.r = r
+    # (template, ok values, facet/lexically bad values, kind, built-in local names the type may be NAMED after: a user type
+    #  {urn:t}token is legal; the names are chosen so that the facet-violating values are still valid for the xs: built-in
+    #  of that name, i.e. a pool that confuses the two gives a different verdict)
+    POOL = [
+        ('<xs:simpleType name="%s"><xs:restriction base="xs:string"><xs:enumeration value="red"/><xs:enumeration value="green"/><xs:enumeration value="b l"/></xs:restriction></xs:simpleType>', ["red", "green"], ["blue", ""], "a", ["token", "string", "normalizedString"]),
+        ('<xs:simpleType name="%s"><xs:restriction base="xs:string"><xs:pattern value="[A-Z]{2}\\d+"/><xs:maxLength value="5"/><xs:minLength value="3"/></xs:restriction></xs:simpleType>', ["AB1", "XY123"], ["ab1", "AB12345", "A1"], "a", ["string", "token", "NMTOKEN", "Name"]),
+        ('<xs:simpleType name="%s"><xs:restriction base="xs:int"><xs:minInclusive value="-5"/><xs:maxExclusive value="100"/></xs:restriction></xs:simpleType>', ["0", "-5", "99"], ["100", "-6", "x"], "a", ["int", "integer", "long", "short"]),
+        ('<xs:simpleType name="%s"><xs:restriction base="xs:decimal"><xs:totalDigits value="5"/><xs:fractionDigits value="2"/><xs:minExclusive value="0.5"/><xs:maxInclusive value="999.99"/></xs:restriction></xs:simpleType>', ["1.25", "999.99"], ["0.5", "1.234", "1000"], "a", ["decimal"]),
+        ('<xs:simpleType name="%s"><xs:restriction base="xs:date"><xs:minInclusive value="2000-01-01"/><xs:maxInclusive value="2010-12-31Z"/></xs:restriction></xs:simpleType>', ["2005-06-07"], ["1999-12-31", "2005-13-01"], "a", ["date"]),
+        ('<xs:simpleType name="%s"><xs:list itemType="xs:NMTOKEN"/></xs:simpleType>', ["a b c", "x"], ["a,b !"], "l", ["NMTOKENS", "IDREFS"]),
+        ('<xs:simpleType name="%s"><xs:union memberTypes="xs:int xs:boolean"><xs:simpleType><xs:restriction base="xs:string"><xs:enumeration value="none"/></xs:restriction></xs:simpleType></xs:union></xs:simpleType>', ["7", "true", "none"], ["maybe"], "u", ["string", "anySimpleType"]),
+        ('<xs:simpleType name="%s"><xs:restriction base="xs:double"><xs:minInclusive value="-1.5E2"/><xs:maxInclusive value="INF"/></xs:restriction></xs:simpleType>', ["1e3", "INF", "-150"], ["-151", "NaNx"], "a", ["double", "float"]),
+        ('<xs:simpleType name="%s"><xs:restriction base="xs:token"><xs:whiteSpace value="collapse"/><xs:length value="3"/></xs:restriction></xs:simpleType>', ["abc", "  abc  "], ["abcd"], "a", ["token", "NCName", "language"]),
+        ('<xs:simpleType name="%s"><xs:restriction base="xs:duration"><xs:minInclusive value="P1D"/></xs:restriction></xs:simpleType>', ["P2D", "P1Y"], ["PT1H"], "a", ["duration"]),
+        ('<xs:simpleType name="%s"><xs:restriction base="xs:hexBinary"><xs:maxLength value="2"/></xs:restriction></xs:simpleType>', ["0aFF", ""], ["0a1", "0a0b0c"], "a", ["hexBinary"]),
+        ('<xs:simpleType name="%s"><xs:restriction base="xs:float"><xs:enumeration value="1.5"/><xs:enumeration value="2"/></xs:restriction></xs:simpleType>', ["1.5", "2.0"], ["3"], "a", ["float", "double", "decimal"]),
+        ('<xs:simpleType name="%s"><xs:restriction base="xs:anyURI"><xs:pattern value="http://.*"/></xs:restriction></xs:simpleType>', ["http://a/b"], ["ftp://x"], "a", ["anyURI"]),
+        ('<xs:simpleType name="%s"><xs:restriction base="xs:QName"/></xs:simpleType>', ["t:x", "y"], ["1:2"], "a", ["QName"]),
+        ('<xs:simpleType name="%s"><xs:restriction base="xs:gYearMonth"><xs:maxExclusive value="2020-01"/></xs:restriction></xs:simpleType>', ["2019-12"], ["2020-01"], "a", ["gYearMonth"]),
+    ]
+    ODD = ["boolean", "ID", "byte", "time", "unsignedInt", "positiveInteger"]      # built-in names of an unrelated type
+
+    def pick_name(self, coll, fallback):
+        """local name of a new named simple type: colliding with a built-in in a good share of the schemas"""
+        r = self.r
+        if self.collide and r.chance(2, 3):
+            nm = r.choice(self.ODD) if r.chance(1, 8) else r.choice(coll)
+            if nm not in self.names:
+                self.names.add(nm); self.collisions += 1
+                return nm
+        self.names.add(fallback)
+        return fallback
+
     def simple_types(self):
         r = self.r
-        pool = [
-            ('<xs:simpleType name="st%d"><xs:restriction base="xs:string"><xs:enumeration value="red"/><xs:enumeration value="green"/><xs:enumeration value="b l"/></xs:restriction></xs:simpleType>', ["red", "green"], ["blue", ""]),
-            ('<xs:simpleType name="st%d"><xs:restriction base="xs:string"><xs:pattern value="[A-Z]{2}\\d+"/><xs:maxLength value="5"/><xs:minLength value="3"/></xs:restriction></xs:simpleType>', ["AB1", "XY123"], ["ab1", "AB12345", "A1"]),
-            ('<xs:simpleType name="st%d"><xs:restriction base="xs:int"><xs:minInclusive value="-5"/><xs:maxExclusive value="100"/></xs:restriction></xs:simpleType>', ["0", "-5", "99"], ["100", "-6", "x"]),
-            ('<xs:simpleType name="st%d"><xs:restriction base="xs:decimal"><xs:totalDigits value="5"/><xs:fractionDigits value="2"/><xs:minExclusive value="0.5"/><xs:maxInclusive value="999.99"/></xs:restriction></xs:simpleType>', ["1.25", "999.99"], ["0.5", "1.234", "1000"]),
-            ('<xs:simpleType name="st%d"><xs:restriction base="xs:date"><xs:minInclusive value="2000-01-01"/><xs:maxInclusive value="2010-12-31Z"/></xs:restriction></xs:simpleType>', ["2005-06-07"], ["1999-12-31", "2005-13-01"]),
-            ('<xs:simpleType name="st%d"><xs:list itemType="xs:NMTOKEN"/></xs:simpleType>', ["a b c", "x"], ["a,b !"]),
-            ('<xs:simpleType name="st%d"><xs:union memberTypes="xs:int xs:boolean"><xs:simpleType><xs:restriction base="xs:string"><xs:enumeration value="none"/></xs:restriction></xs:simpleType></xs:union></xs:simpleType>', ["7", "true", "none"], ["maybe"]),
-            ('<xs:simpleType name="st%d"><xs:restriction base="xs:double"><xs:minInclusive value="-1.5E2"/><xs:maxInclusive value="INF"/></xs:restriction></xs:simpleType>', ["1e3", "INF", "-150"], ["-151", "NaNx"]),
-            ('<xs:simpleType name="st%d"><xs:restriction base="xs:token"><xs:whiteSpace value="collapse"/><xs:length value="3"/></xs:restriction></xs:simpleType>', ["abc", "  abc  "], ["abcd"]),
-            ('<xs:simpleType name="st%d"><xs:restriction base="xs:duration"><xs:minInclusive value="P1D"/></xs:restriction></xs:simpleType>', ["P2D", "P1Y"], ["PT1H"]),
-            ('<xs:simpleType name="st%d"><xs:restriction base="xs:hexBinary"><xs:maxLength value="2"/></xs:restriction></xs:simpleType>', ["0aFF", ""], ["0a1", "0a0b0c"]),
-            ('<xs:simpleType name="st%d"><xs:restriction base="xs:float"><xs:enumeration value="1.5"/><xs:enumeration value="2"/></xs:restriction></xs:simpleType>', ["1.5", "2.0"], ["3"]),
-            ('<xs:simpleType name="st%d"><xs:restriction base="xs:anyURI"><xs:pattern value="http://.*"/></xs:restriction></xs:simpleType>', ["http://a/b"], ["ftp://x"]),
-            ('<xs:simpleType name="st%d"><xs:restriction base="xs:QName"/></xs:simpleType>', ["t:x", "y"], ["1:2"]),
-            ('<xs:simpleType name="st%d"><xs:restriction base="xs:gYearMonth"><xs:maxExclusive value="2020-01"/></xs:restriction></xs:simpleType>', ["2019-12"], ["2020-01"]),
-        ]
+        pool = self.POOL
         k = 2 + r.below(4)
         chosen = [pool[r.below(len(pool))] for _ in range(k)]
         self.st = {}
+        self.user, self.kind = [], {}
         decls = []
-        for i, (txt, ok, bad) in enumerate(chosen):
-            decls.append(txt % i)
-            self.st["t:st%d" % i] = (ok, bad)
-        # a derived type: restriction of an earlier user type
-        if r.chance(1, 2):
-            base = "t:st0"
-            decls.append('<xs:simpleType name="std"><xs:restriction base="%s"/></xs:simpleType>' % base)
-            self.st["t:std"] = self.st[base]
+        for i, (txt, ok, bad, kind, coll) in enumerate(chosen):
+            nm = self.pick_name(coll, "st%d" % i)
+            decls.append(txt % nm)
+            self.st[self.pfx + ":" + nm] = (ok, bad)
+            self.user.append(self.pfx + ":" + nm); self.kind[self.pfx + ":" + nm] = kind
+        self.primary = list(self.user)
+        atomic = [u for u in self.user if self.kind[u] == "a"]
+        # derived from user types: further restriction, list with a user item type, union with a user member type
+        if r.chance(2, 3):
+            base = r.choice(self.user)
+            ok, bad = self.st[base]
+            nm = self.pick_name(["normalizedString", "Name", "NMTOKEN", "nonNegativeInteger", "unsignedByte"], "std")
+            if r.chance(1, 2) and "&" not in ok[0]:
+                decls.append('<xs:simpleType name="%s"><xs:restriction base="%s"><xs:enumeration value="%s"/></xs:restriction></xs:simpleType>' % (nm, base, ok[0]))
+                self.st[self.pfx + ":" + nm] = ([ok[0]], [v for v in ok[1:] if v.strip() != ok[0].strip()] + bad)
+            else:
+                decls.append('<xs:simpleType name="%s"><xs:restriction base="%s"/></xs:simpleType>' % (nm, base))
+                self.st[self.pfx + ":" + nm] = self.st[base]
+            self.user.append(self.pfx + ":" + nm); self.kind[self.pfx + ":" + nm] = self.kind[base]
+        if atomic and r.chance(1, 2):
+            item = r.choice(atomic)
+            iok = [v for v in self.st[item][0] if v and " " not in v]
+            ibad = [v for v in self.st[item][1] if v and " " not in v]
+            if iok:
+                nm = self.pick_name(["NMTOKENS", "IDREFS", "ENTITIES"], "stl")
+                decls.append('<xs:simpleType name="%s"><xs:list itemType="%s"/></xs:simpleType>' % (nm, item))
+                self.st[self.pfx + ":" + nm] = ([" ".join(iok), iok[0]], [iok[0] + " " + b for b in ibad])
+                self.user.append(self.pfx + ":" + nm); self.kind[self.pfx + ":" + nm] = "l"
+        if atomic and r.chance(1, 2):
+            mem = r.choice(atomic)
+            nm = self.pick_name(["anySimpleType", "string", "token"], "stu")
+            decls.append('<xs:simpleType name="%s"><xs:union memberTypes="%s xs:boolean"/></xs:simpleType>' % (nm, mem))
+            self.st[self.pfx + ":" + nm] = (self.st[mem][0] + ["true"], [b for b in self.st[mem][1] if b not in ("0", "1", "true", "false")])
+            self.user.append(self.pfx + ":" + nm); self.kind[self.pfx + ":" + nm] = "u"
         for b, ok, bad in (("xs:string", ["s", ""], []), ("xs:int", ["1", "-2"], ["x", "1.5"]), ("xs:boolean", ["true", "0"], ["yes"]),
                            ("xs:dateTime", ["2001-02-03T04:05:06Z"], ["2001-02-03"]), ("xs:NCName", ["n1"], ["1n", "a:b"])):
             self.st[b] = (ok, bad)
         return decls
+    def anon_type(self):
+        """an anonymous simple type (named __AnonS<n> internally), sometimes restricting a user type"""
+        r = self.r
+        if self.primary and r.chance(1, 2):
+            base = r.choice(self.primary)
+            ok, bad = self.st[base]
+            if "&" not in ok[0]:
+                return ('<xs:simpleType><xs:restriction base="%s"><xs:enumeration value="%s"/></xs:restriction></xs:simpleType>' % (base, ok[0]),
+                        [ok[0]], [v for v in ok[1:] if v.strip() != ok[0].strip()] + bad)
+        return r.choice([
+            ('<xs:simpleType><xs:restriction base="xs:int"><xs:maxInclusive value="9"/></xs:restriction></xs:simpleType>', ["3", "9"], ["10", "x"]),
+            ('<xs:simpleType><xs:restriction base="xs:string"><xs:length value="2"/></xs:restriction></xs:simpleType>', ["ab"], ["abc", ""]),
+            ('<xs:simpleType><xs:list itemType="xs:int"/></xs:simpleType>', ["1 2 3", ""], ["1 b"]),
+            ('<xs:simpleType><xs:union memberTypes="xs:date xs:int"/></xs:simpleType>', ["2001-01-01", "5"], ["five"])])
     def particle(self, depth):
         """returns (xsd text, generator of instance content)"""
         r = self.r
@@ -401,7 +477,16 @@ class XsdGen:
         occ, lo, hi = self.occurs()
         if depth <= 0 or k < 5:
             nm = "e%d" % self.ctr; self.ctr += 1
-            ty = r.choice(list(self.st))
+            if r.chance(1, 6):
+                atxt, aok, abad = self.anon_type()
+                aty = "anon:%s" % nm
+                self.st[aty] = (aok, abad)
+                txt = '<xs:element name="%s"%s>%s</xs:element>' % (nm, occ, atxt)
+                def gen(valid, nm=nm, ty=aty, lo=lo, hi=hi):
+                    n = lo + self.r.below(hi - lo + 1)
+                    return "".join("<%s:%s>%s</%s:%s>" % (self.pfx, nm, self.value(ty, valid), self.pfx, nm) for _ in range(n))
+                return txt, gen
+            ty = r.choice([x for x in self.st if not x.startswith("anon:")])
             extra = ""
             if r.chance(1, 6):
                 dv = self.st[ty][0][0]
@@ -469,7 +554,7 @@ class XsdGen:
         for i in range(r.below(4)):
             nm = "at%d" % i
             use = r.below(5)
-            ty = r.choice([t for t in self.st if "std" not in t])
+            ty = r.choice([t for t in self.st if not t.startswith("anon:")])
             # (an attribute of a USER-DEFINED simple type makes IGXMLScanner::buildAttList dereference a null
             #  XSSimpleTypeDefinition when a PSVI handler is installed and the grammar comes from the pool — on the ORIGINAL
             #  pool as well, so not a C16 matter; such schemas are validated without DOM type info)
@@ -486,6 +571,12 @@ class XsdGen:
                 u = ""
             txt += '<xs:attribute name="%s" type="%s"%s/>' % (nm, ty, u)
             gens.append((nm, ty, use))
+        if r.chance(1, 6):
+            atxt, aok, abad = self.anon_type()
+            self.st["anon:@aa"] = (aok, abad)
+            self.psvi_safe = False
+            txt += '<xs:attribute name="aa">%s</xs:attribute>' % atxt
+            gens.append(("aa", "anon:@aa", 3))
         if r.chance(1, 5):
             txt += '<xs:attributeGroup ref="t:ag"/>'
             gens.append(("ga", "xs:int", 3))
@@ -510,19 +601,33 @@ class XsdGen:
         r = self.r
         self.ctr = 0
         self.psvi_safe = True
+        self.pfx = "t"
+        self.names = set()
+        self.collisions = 0
+        self.collide = r.below(3) != 0          # one third of the schemas are controls without built-in-named user types
         self.globals_, self.subst, self.gtype = [], {}, {}
-        parts = ['<xs:schema xmlns:xs="%s" targetNamespace="urn:t" xmlns:t="urn:t" elementFormDefault="qualified"%s>' % (
-            XS, r.choice(["", ' attributeFormDefault="unqualified"', ' blockDefault="substitution"', ' finalDefault="list"']))]
+        self.import_u = None
+        self.second = None
+        parts = ['<xs:schema xmlns:xs="%s" targetNamespace="urn:t" xmlns:t="urn:t" xmlns:u="urn:u" elementFormDefault="qualified"%s>' % (
+            XS, r.choice(["", ' attributeFormDefault="unqualified"', ' blockDefault="substitution"', ' blockDefault="extension"']))]
+        two = r.chance(1, 3)
+        if two and r.chance(1, 2):
+            parts.append('<xs:import namespace="urn:u" schemaLocation="file:///hx/g0.xsd"/>')
+            self.import_u = "IMPORT"
         if r.chance(1, 2):
             parts.append('<xs:annotation><xs:documentation xml:lang="en">doc %s &amp; more</xs:documentation><xs:appinfo><x>i</x></xs:appinfo></xs:annotation>' % ("d" * r.below(40)))
         if r.chance(1, 5):
             parts.append('<xs:notation name="nt" public="-//X//nt" system="http://x/nt"/>')
         parts += self.simple_types()
+        if two:
+            self.second = self.gen_second()
+            if self.import_u:
+                self.import_u = self.second["types"][0][0]
         parts.append('<xs:attributeGroup name="ag"><xs:attribute name="ga" type="xs:int"/></xs:attributeGroup>')
         # global elements with simple types, one substitution group
         for i in range(1 + r.below(3)):
             nm = "g%d" % i
-            ty = r.choice([t for t in self.st])
+            ty = r.choice([t for t in self.st if not t.startswith("anon:")])
             abstract = ' abstract="true"' if (i == 0 and r.chance(1, 4)) else ""
             parts.append('<xs:element name="%s" type="%s"%s/>' % (nm, ty, abstract))
             self.globals_.append(nm); self.gtype[nm] = ty
@@ -542,8 +647,8 @@ class XsdGen:
         etxt, egen = self.particle(1)
         if not etxt.startswith(("<xs:sequence", "<xs:choice")):
             etxt = "<xs:sequence>" + etxt + "</xs:sequence>"
-        parts.append('<xs:complexType name="ext"><xs:complexContent><xs:extension base="t:base">%s<xs:attribute name="xa" type="xs:string"/></xs:extension></xs:complexContent></xs:complexType>' % etxt)
-        sc_ty = r.choice([t for t in self.st if t.startswith("t:st") and t != "t:std"])
+        parts.append('<xs:complexType name="ext"%s><xs:complexContent><xs:extension base="t:base">%s<xs:attribute name="xa" type="xs:string"/></xs:extension></xs:complexContent></xs:complexType>' % (mixed, etxt))
+        sc_ty = r.choice(self.user)
         parts.append('<xs:complexType name="sc"><xs:simpleContent><xs:extension base="%s"><xs:attribute name="u" type="xs:NCName" default="dflt"/></xs:extension></xs:simpleContent></xs:complexType>' % sc_ty)
         if r.chance(1, 2):
             parts.append('<xs:complexType name="allt"><xs:all><xs:element name="p" type="xs:int"/><xs:element name="q" type="xs:string" minOccurs="0"/></xs:all></xs:complexType>')
@@ -559,6 +664,20 @@ class XsdGen:
             root.append('<xs:element name="al" type="t:allt" minOccurs="0"/>')
         if "grp" in "".join(parts):
             root.append('<xs:group ref="t:grp"/>')
+        # one probe element (and sometimes attribute) per named simple type: instances hit exactly its facets
+        self.probe_attrs = (not self.psvi_safe) or r.chance(1, 2)
+        pr = '<xs:element name="pr" minOccurs="0"><xs:complexType><xs:sequence>'
+        for k, u in enumerate(self.user):
+            pr += '<xs:element name="p%d" type="%s" minOccurs="0" maxOccurs="unbounded"/>' % (k, u)
+        if self.import_u:
+            pr += '<xs:element name="imp" type="u:%s" minOccurs="0" maxOccurs="unbounded"/>' % self.import_u
+        pr += '</xs:sequence>'
+        if self.probe_attrs:
+            self.psvi_safe = False
+            for k, u in enumerate(self.user):
+                pr += '<xs:attribute name="q%d" type="%s"/>' % (k, u)
+        pr += '</xs:complexType></xs:element>'
+        root.append(pr)
         root.append('<xs:element name="item" minOccurs="0" maxOccurs="unbounded"><xs:complexType><xs:attribute name="k" type="xs:int" use="required"/><xs:attribute name="r" type="xs:int"/></xs:complexType></xs:element>')
         root.append('</xs:sequence><xs:attribute name="ver" type="xs:decimal" default="1.0"/></xs:complexType>')
         if idc:
@@ -589,6 +708,20 @@ class XsdGen:
                 body += r.choice(["<t:al><t:p>1</t:p><t:q>x</t:q></t:al>", "<t:al><t:q>x</t:q><t:p>2</t:p></t:al>", "<t:al><t:q>x</t:q></t:al>" if not valid else "<t:al><t:p>3</t:p></t:al>"])
             if self.has_grp and r.chance(1, 2):
                 body += "<t:ge>g</t:ge>"
+            if k != 2 and self.user:
+                pa, pb = "", ""
+                for j, u in enumerate(self.user):
+                    ok, bad = self.st[u]
+                    vals = [r.choice(ok)] if valid else ([r.choice(bad)] if bad and r.chance(2, 3) else [r.choice(ok)])
+                    if k == 5:
+                        vals = ok + bad           # every listed value of every named type
+                    pb += "".join("<t:p%d>%s</t:p%d>" % (j, v, j) for v in vals)
+                    if self.probe_attrs and r.chance(1, 2) and '"' not in vals[0]:
+                        pa += ' q%d="%s"' % (j, vals[0])
+                if self.import_u and self.second:
+                    uok, ubad = self.second["types"][0][1], self.second["types"][0][2]
+                    pb += "".join("<t:imp>%s</t:imp>" % v for v in ([r.choice(uok)] if valid or not ubad else [r.choice(ubad)]))
+                body += "<t:pr%s>%s</t:pr>" % (pa, pb)
             keys = [r.below(4 if not valid else 50) for _ in range(r.below(4))]
             if valid:
                 keys = sorted(set(keys))
@@ -601,7 +734,46 @@ class XsdGen:
         if self.globals_:
             g = self.globals_[-1]
             out.append('<t:%s xmlns:t="urn:t">%s</t:%s>' % (g, self.value(self.gtype[g], True), g))
+        if self.second:
+            out += self.second["instances"]
         return out
+    def gen_second(self):
+        """a second schema grammar for the same pool, target namespace urn:u: named simple types with the SAME local names
+        as types of the first schema (and as built-ins) but other definitions, anonymous types (both grammars then own
+        __AnonS1, __AnonS2 ...), its own root element"""
+        r = self.r
+        locals_ = [u.split(":")[1] for u in self.primary]
+        r2 = [n for n in locals_]
+        names = []
+        for n in r2[:2]:
+            names.append(n)
+        if self.collide and "token" not in names:
+            names.append("token")
+        names.append("ucode")
+        types, decl = [], []
+        off = 1 + r.below(len(self.POOL) - 1)
+        for k, n in enumerate(names):
+            txt, ok, bad, kind, _ = self.POOL[(off + 3 * k) % len(self.POOL)]
+            decl.append(txt % n)
+            types.append((n, ok, bad))
+        body = ""
+        for k, (n, ok, bad) in enumerate(types):
+            body += '<xs:element name="c%d" type="u:%s" minOccurs="0" maxOccurs="unbounded"/>' % (k, n)
+        body += '<xs:element name="an" minOccurs="0" maxOccurs="unbounded"><xs:simpleType><xs:restriction base="u:%s"><xs:enumeration value="%s"/></xs:restriction></xs:simpleType></xs:element>' % (types[0][0], types[0][1][0])
+        body += '<xs:element name="an2" minOccurs="0"><xs:simpleType><xs:restriction base="xs:string"><xs:maxLength value="1"/></xs:restriction></xs:simpleType></xs:element>'
+        text = ('<xs:schema xmlns:xs="%s" targetNamespace="urn:u" xmlns:u="urn:u" elementFormDefault="qualified">\n%s\n'
+                '<xs:element name="uroot"><xs:complexType><xs:sequence>%s</xs:sequence><xs:attribute name="ua" type="u:%s"/></xs:complexType></xs:element>\n</xs:schema>') % (
+                XS, "\n".join(decl), body, types[-1][0])
+        insts = []
+        for valid in (True, False):
+            b = ""
+            for k, (n, ok, bad) in enumerate(types):
+                vals = ok if valid else ok[:1] + bad
+                b += "".join("<u:c%d>%s</u:c%d>" % (k, v, k) for v in vals)
+            b += "<u:an>%s</u:an>" % (types[0][1][0] if valid else (types[0][1][-1] if len(types[0][1]) > 1 else "zz"))
+            b += "<u:an2>%s</u:an2>" % ("a" if valid else "ab")
+            insts.append('<u:uroot xmlns:u="urn:u">%s</u:uroot>' % b)
+        return {"text": text, "types": types, "instances": insts}
 
 def gen_pool_cases(ctx, n_dtd, n_xsd, rng=None):
     r = rng or ctx.rng
@@ -613,14 +785,18 @@ def gen_pool_cases(ctx, n_dtd, n_xsd, rng=None):
     for _ in range(n_xsd):
         g = XsdGen(r)
         text = g.gen()
-        cases.append(("St" if g.psvi_safe else "S", text, g.instances(text)))
+        insts = g.instances(text)
+        if g.second:      # the imported grammar (if any) is loaded first so that the import finds it in the pool
+            text = [g.second["text"], text] if g.import_u else [text, g.second["text"]]
+        cases.append(("St" if g.psvi_safe else "S", text, insts))
     return cases
 
 def pool_line(kind, text, insts, flags="-"):
     if len(kind) > 1:       # "St": schema whose instances may be validated with DOM type info
         flags = flags.replace("-", "") + kind[1:]
         kind = kind[0]
-    return "P %s g:%s:%s %s" % (flags, kind, hexs(text), " ".join("i:" + hexs(i) for i in insts))
+    texts = text if isinstance(text, list) else [text]
+    return "P %s %s %s" % (flags, " ".join("g:%s:%s" % (kind, hexs(x)) for x in texts), " ".join("i:" + hexs(i) for i in insts))
 
 def san_filter(err):
     """sanitizer reports that concern this property (serialisation code or any ASan error)"""
@@ -662,11 +838,13 @@ def judge_pool_all(res):
             out.append(("ser-pool-incomplete", "round trip did not complete: " + res[:200]))
         return out
     d = f.get("dump", "").split(":")[0].split(",")
+    upa = "V54e" in f.get("gram", "")      # schema rejected as non-deterministic (Unique Particle Attribution): which particle
+                                           # an element is attributed to is not defined, verdicts are not compared
     if len(set(d)) != 1:
         out.append(("ser-pool-components-differ", "grammar / XSModel component dump differs between original and restored pool (%s)" % ",".join(d)))
     for k, seg in enumerate(res.split(" || ")[0].split(" | ")[1:]):
         obs = seg.split()
-        if len(obs) >= 3 and len(set(obs[:3])) != 1:
+        if len(obs) >= 3 and len(set(obs[:3])) != 1 and not upa:
             a, b, c = (o.split("#") for o in obs[:3])
             what = "verdict/error codes" if (a[0] != b[0] or a[0] != c[0]) else ("DOM (defaulted attributes, type names, content)" if a[1] != b[1] or a[1] != c[1] else "external entities requested")
             key = {"v": "ser-pool-verdict-differs", "D": "ser-pool-dom-differs", "e": "ser-pool-entities-differ"}[what[0]]
@@ -731,7 +909,7 @@ def pool_round(ctx, cases, origin, flags="-"):
         if m2:
             hist["stream2==stream1" if m2.group(1) == m2.group(2) else "stream2!=stream1 (hash-table order)"] = hist.get("stream2==stream1" if m2.group(1) == m2.group(2) else "stream2!=stream1 (hash-table order)", 0) + 1
         for key, what in js:
-            if key not in found or len(text) < len(found[key][1]):
+            if key not in found or len("".join(text)) < len("".join(found[key][1])):
                 found[key] = (what, text, insts, kind, line)
     for key, (what, text, insts, kind, line) in found.items():
         ctx.violations.append({"key": key, "concrete": True,
@@ -759,6 +937,42 @@ def directed_locked_pool(ctx):
             "what": "a grammar pool serialised while locked cannot be deserialised (deserializeGrammars sets fLocked before the "
                     "synchronized string pool exists; createXSModel dereferences it): " + what[:300],
             "replay": {"op": "P", "flags": "l", "kind": "D", "grammar": dtd, "instances": inst}})
+
+def directed_builtin_named_types(ctx):
+    """user simple types named like XSD built-ins, in every position a type can be referenced from, plus the same local
+    names in a second namespace and a control; fixed, so the probe does not depend on the random stream"""
+    t1 = ('<xs:schema xmlns:xs="%s" targetNamespace="urn:t" xmlns:t="urn:t" xmlns:u="urn:u" elementFormDefault="qualified">'
+          '<xs:import namespace="urn:u" schemaLocation="file:///hx/g0.xsd"/>'
+          '<xs:simpleType name="token"><xs:restriction base="xs:token"><xs:enumeration value="on"/><xs:enumeration value="off"/></xs:restriction></xs:simpleType>'
+          '<xs:simpleType name="decimal"><xs:restriction base="xs:decimal"><xs:minInclusive value="0"/><xs:maxInclusive value="100"/><xs:fractionDigits value="1"/></xs:restriction></xs:simpleType>'
+          '<xs:simpleType name="date"><xs:restriction base="xs:date"><xs:minInclusive value="2000-01-01"/></xs:restriction></xs:simpleType>'
+          '<xs:simpleType name="colour"><xs:restriction base="xs:string"><xs:enumeration value="red"/></xs:restriction></xs:simpleType>'
+          '<xs:simpleType name="NMTOKENS"><xs:list itemType="t:token"/></xs:simpleType>'
+          '<xs:simpleType name="string"><xs:union memberTypes="t:decimal t:token"/></xs:simpleType>'
+          '<xs:simpleType name="integer"><xs:restriction base="t:decimal"><xs:maxInclusive value="10"/></xs:restriction></xs:simpleType>'
+          '<xs:complexType name="sc"><xs:simpleContent><xs:extension base="t:date"><xs:attribute name="a" type="t:token"/></xs:extension></xs:simpleContent></xs:complexType>'
+          '<xs:element name="r"><xs:complexType><xs:sequence>'
+          '<xs:element name="tok" type="t:token" minOccurs="0" maxOccurs="unbounded"/><xs:element name="dec" type="t:decimal" minOccurs="0" maxOccurs="unbounded"/>'
+          '<xs:element name="dat" type="t:sc" minOccurs="0" maxOccurs="unbounded"/><xs:element name="lst" type="t:NMTOKENS" minOccurs="0" maxOccurs="unbounded"/>'
+          '<xs:element name="uni" type="t:string" minOccurs="0" maxOccurs="unbounded"/><xs:element name="int" type="t:integer" minOccurs="0" maxOccurs="unbounded"/>'
+          '<xs:element name="col" type="t:colour" minOccurs="0" maxOccurs="unbounded"/><xs:element name="utk" type="u:token" minOccurs="0" maxOccurs="unbounded"/>'
+          '<xs:element name="ano" minOccurs="0" maxOccurs="unbounded"><xs:simpleType><xs:restriction base="t:token"><xs:enumeration value="on"/></xs:restriction></xs:simpleType></xs:element>'
+          '</xs:sequence><xs:attribute name="d" type="t:decimal"/></xs:complexType></xs:element></xs:schema>') % XS
+    t0 = ('<xs:schema xmlns:xs="%s" targetNamespace="urn:u" xmlns:u="urn:u" elementFormDefault="qualified">'
+          '<xs:simpleType name="token"><xs:restriction base="xs:int"><xs:maxInclusive value="5"/></xs:restriction></xs:simpleType>'
+          '<xs:element name="ur"><xs:complexType><xs:sequence><xs:element name="k" type="u:token" maxOccurs="unbounded"/>'
+          '<xs:element name="ano" minOccurs="0"><xs:simpleType><xs:restriction base="xs:string"><xs:length value="1"/></xs:restriction></xs:simpleType></xs:element>'
+          '</xs:sequence></xs:complexType></xs:element></xs:schema>') % XS
+    def doc(body, att=""):
+        return '<t:r xmlns:t="urn:t"%s>%s</t:r>' % (att, body)
+    insts = [doc("<t:tok>on</t:tok><t:dec>99.5</t:dec><t:dat a='off'>2001-01-01</t:dat><t:lst>on off on</t:lst><t:uni>7.5</t:uni><t:uni>off</t:uni><t:int>10</t:int><t:col>red</t:col><t:utk>5</t:utk><t:ano>on</t:ano>", ' d="1.5"'),
+             doc("<t:tok>maybe</t:tok>"), doc("<t:dec>100.5</t:dec>"), doc("<t:dec>1.25</t:dec>"), doc("<t:dat>1999-12-31</t:dat>"),
+             doc("<t:dat a='x'>2001-01-01</t:dat>"), doc("<t:lst>on perhaps</t:lst>"), doc("<t:uni>nothing</t:uni>"), doc("<t:int>11</t:int>"),
+             doc("<t:col>blue</t:col>"), doc("<t:utk>on</t:utk>"), doc("<t:utk>6</t:utk>"), doc("<t:ano>off</t:ano>"), doc("", ' d="200"'),
+             '<u:ur xmlns:u="urn:u"><u:k>5</u:k><u:k>6</u:k><u:k>on</u:k><u:ano>ab</u:ano></u:ur>']
+    before = len(ctx.violations)
+    pool_round(ctx, [("S", [t0, t1], insts)], "user types named like built-ins (directed)")
+    ctx.stats["builtin_named_types_case"] = "clean" if len(ctx.violations) == before else ctx.violations[-1]["what"][:160]
 
 def directed_chunk_boundary_pool(ctx):
     """grammar-level witness of the read() chunk defect: an attribute default whose UTF-16 data ends exactly at a block
@@ -935,17 +1149,19 @@ def correspondence(ctx):
     n_eng = len(lines)
     # ---- pools
     n = 2500 if th else 150
-    cases = gen_pool_cases(ctx, n, n)
+    # quick: 180 DTD + 120 XSD pools (an XSD pool costs ~8x a DTD pool since the richer type generator)
+    cases = gen_pool_cases(ctx, n if th else 180, n if th else 120)
     pool_round(ctx, cases, "generated")
     directed_locked_pool(ctx)
     directed_chunk_boundary_pool(ctx)
-    ctx.samples.append({"pool-case": {"kind": cases[0][0], "grammar": cases[0][1][:400], "instance": cases[0][2][0][:200]}})
-    ctx.samples.append({"pool-case": {"kind": cases[-1][0], "grammar": cases[-1][1][:600], "instance": cases[-1][2][0][:300]}})
+    directed_builtin_named_types(ctx)
+    ctx.samples.append({"pool-case": {"kind": cases[0][0], "grammar": "".join(cases[0][1])[:400], "instance": cases[0][2][0][:200]}})
+    ctx.samples.append({"pool-case": {"kind": cases[-1][0], "grammar": "".join(cases[-1][1])[:600], "instance": cases[-1][2][0][:300]}})
     ctx.stats["evaluations"] = n_eng + len(cases) + 2
     ctx.stats["engine_cases"] = n_eng
     ctx.stats["pools"] = len(cases) + 2
     ctx.stats["pool_instances_validated_x3"] = sum(len(c[2]) for c in cases)
-    ctx.stats["distinct_nontrivial"] = len({l for l in lines if len(l.split()) > 4}) + len({c[1] for c in cases})
+    ctx.stats["distinct_nontrivial"] = len({l for l in lines if len(l.split()) > 4}) + len({"".join(c[1]) for c in cases})
     try:
         import translate_serops
         last = getattr(translate_serops.gen_serialize_ops, "last", None)
@@ -999,7 +1215,7 @@ def replay(ctx, path):
         line = pool_line(r["kind"], r["grammar"], r["instances"], (r.get("flags", "-").replace("-", "") + "v") or "v")
         p = common.run_harness("hx_ser", input=(line + "\n").encode())
         out = p.stdout.decode(errors="replace").strip()
-        print("grammar:\n" + r["grammar"][:3000])
+        print("grammar:\n" + ("\n-- second grammar of the pool --\n".join(r["grammar"]) if isinstance(r["grammar"], list) else r["grammar"])[:6000])
         for k, ins in enumerate(r["instances"]):
             print("instance %d: %s" % (k, ins[:600]))
         if not out:
